@@ -47,6 +47,8 @@ type LegCase struct {
 	Rounds   [][][]LegOp `json:"rounds"` // round -> producer -> callbacks
 	ImagePct int         `json:"image_pct"`
 	IndexSet bool        `json:"index_set,omitempty"` // resbadger models maintain an index set in the apply transactions
+	// IndexEmpty: resbadger models have an index set without any index
+	IndexEmpty bool `json:"index_empty,omitempty"`
 	// Map: resbadger models are served through a Map callback (it hides
 	// property "b" and adds "mapped"); storage and Value are unmapped
 	Map      bool     `json:"map,omitempty"`
@@ -100,6 +102,7 @@ func (LegacyScenario) GenCase(r *rand.Rand, prop string) interface{} {
 	c.ImagePct = pick(r, 0, 10, 30)
 	c.IndexSet = c.Pkg == "resbadger" && chance(r, 50)
 	c.Map = c.Pkg == "resbadger" && chance(r, 35)
+	c.IndexEmpty = c.Pkg == "resbadger" && !c.IndexSet && chance(r, 30)
 	for _, p := range []string{"conn.Publish", "event", "rawEvent", "worker.beforeCb", "worker.afterCb", "runWith.beforeLock", "handler", "handleRequest", "auto.lock", "badger.commit", "badger.view", "badger.update"} {
 		if chance(r, 60) {
 			c.Optional = append(c.Optional, p)
@@ -480,6 +483,9 @@ func (LegacyScenario) Execute(sim *sched.Sim, ci interface{}, prop string, race 
 					}
 					return legMapped(m), nil
 				})
+			}
+			if c.IndexEmpty {
+				mo = mo.WithIndexSet(&resbadger.IndexSet{})
 			}
 			if c.IndexSet {
 				// the index key is the value of property "a"
